@@ -423,6 +423,158 @@ def fallback(a64: bool, full: int, stripped: int, which: int) -> bool:
     return verdict(ok, nontrivial=nt, sample=sample)
 
 
+
+# ------------------------------------------------------------------ (s) every entry of every shipped model
+# For each form of a shipped model an instruction is synthesised from the form's own operand pattern
+# (one concrete register / memory operand / immediate ... per declared kind) and looked up through the
+# real get_instruction: it is found, the entry found is the form itself or one listed before it (first
+# match in file order), the operand counts agree, and every operand kind of the entry found agrees with
+# the instruction's operand under the declarative kind oracle above.  The solver is asked for an entry
+# index violating this over the ground table of outcomes (a scan, stated as such).
+
+GPRS = ["rax", "rbx", "rcx", "rdx", "rsi", "rdi"]
+X86_CLASSES = ("gpr", "xmm", "ymm", "zmm", "mm", "k", W)
+A64_PREFIXES = ("x", "w", "b", "h", "s", "d", "q", "v", "z", "p", W)
+A64_SHAPES = (None, "b", "h", "s", "d", "q", W)
+LANES = {"b": "16", "h": "8", "s": "4", "d": "2"}
+
+
+def _x86_instance(o, pos):
+    """(instruction operand, its descriptor for _x86_oracle, the entry operand's descriptor)"""
+    if isinstance(o, RegisterOperand):
+        if o.name not in X86_CLASSES:
+            return None
+        name = GPRS[pos % 6] if o.name in (W, "gpr") else "%s%d" % (o.name, pos + 1)
+        cls = "gpr" if o.name in (W, "gpr") else o.name
+        return RegisterOperand(name=name), ("reg", name, cls), ("reg", o.name)
+    if isinstance(o, MemoryOperand):
+        ident = isinstance(o.offset, IdentifierOperand) or o.offset == "id"
+        off = None if o.offset is None else (IdentifierOperand(name="sym") if ident else ImmediateOperand(value=16))
+        idx = None if o.index is None else RegisterOperand(name="r9")
+        sc = o.scale if isinstance(o.scale, int) else (4 if idx is not None else 1)
+        m = MemoryOperand(base=None if o.base is None else RegisterOperand(name="r8"), offset=off, index=idx, scale=sc)
+        return m, ("mem", None if o.base is None else "r8", None if off is None else ("ident" if ident else "imm"), None if idx is None else "r9", sc), \
+            ("mem", o.base, "id" if ident else o.offset, o.index, o.scale)
+    if isinstance(o, ImmediateOperand):
+        return ImmediateOperand(imd_type="int", value=1), ("imm", 1), ("imm", o.imd_type)
+    if isinstance(o, IdentifierOperand):
+        return IdentifierOperand(name="lbl"), ("id", "lbl"), ("id",)
+    return None
+
+
+def _a64_instance(o, pos):
+    if isinstance(o, RegisterOperand):
+        if o.prefix not in A64_PREFIXES or o.shape not in A64_SHAPES:
+            return None
+        p, sh = o.prefix, o.shape
+        if p == W:
+            p = "x" if sh is None else "v"
+        if sh == W:
+            sh = "d"
+        lanes = LANES.get(sh) if (p == "v" and sh) else None
+        return RegisterOperand(prefix=p, name=str(pos + 1), shape=sh, lanes=lanes), ("reg", p, sh, lanes), ("reg", o.prefix, o.shape)
+    if isinstance(o, MemoryOperand):
+        bp = "x" if o.base in (W, None) else o.base
+        off = None if o.offset is None else ImmediateOperand(imd_type="int", value=16)
+        idx = None
+        if o.index is not None:
+            ip = "x" if o.index == W else o.index
+            idx = RegisterOperand(prefix=ip, name="11", shape=("d" if ip == "z" else None))
+        sc = o.scale if isinstance(o.scale, int) else (8 if idx is not None else 1)
+        m = MemoryOperand(base=RegisterOperand(prefix=bp, name="10"), offset=off, index=idx, scale=sc)
+        m.pre_indexed = True if o.pre_indexed is True else False
+        m.post_indexed = {"value": 16} if o.post_indexed is True else False
+        mode = "pre" if m.pre_indexed else ("post" if m.post_indexed else "plain")
+        return m, ("mem", "x", None if off is None else "imm", None if idx is None else "x", sc, mode), \
+            ("mem", "x" if o.base in ("x", "w") else o.base, o.offset, "x" if o.index in ("x", "w", "z") else o.index, o.scale, o.pre_indexed, o.post_indexed)
+    if isinstance(o, ImmediateOperand):
+        t = "int" if o.imd_type in (W, "int") else o.imd_type
+        return ImmediateOperand(imd_type=t, value=(3 if t == "int" else 1.5)), ("imm", t), ("imm", o.imd_type)
+    if isinstance(o, IdentifierOperand):
+        return IdentifierOperand(name="lbl"), ("id",), ("id",)
+    if isinstance(o, ConditionOperand):
+        cc = "NE" if o.ccode == W else o.ccode
+        return ConditionOperand(ccode=cc), ("cond", cc), ("cond", o.ccode)
+    if isinstance(o, PrefetchOperand):
+        return PrefetchOperand(type_id="PLD", target="L1", policy="KEEP"), ("prf",), ("prf",)
+    return None
+
+
+def _entry_desc(isa, o):
+    r = (_x86_instance if isa == "x86" else _a64_instance)(o, 0)
+    return None if r is None else r[2]
+
+
+def _entry_outcome(m, isa, forms, k):
+    """None if fine, else a short reason"""
+    f = forms[k]
+    inst = [(_x86_instance if isa == "x86" else _a64_instance)(o, i) for i, o in enumerate(f.operands)]
+    if any(x is None for x in inst):
+        return "operand kind outside the documented vocabulary"
+    ops = [x[0] for x in inst]
+    try:
+        got = m.get_instruction(f.mnemonic, ops)
+    except Exception as e:   # noqa
+        return "lookup raised %s" % type(e).__name__
+    if got is None:
+        return "instruction written with the entry's own operand kinds is not found"
+    pos = [i for i, x in enumerate(forms) if x is got]
+    if not pos or pos[0] > k:
+        return "an entry listed later is found, the entry itself does not match"
+    if len(got.operands) != len(ops):
+        return "entry with another operand count applied"
+    oracle = _x86_oracle if isa == "x86" else _a64_oracle
+    for go, x in zip(got.operands, inst):
+        ed = _entry_desc(isa, go)
+        if ed is None or oracle(ed, x[1]) is False:
+            return "entry with a different operand kind applied"
+    return None
+
+
+def make_shipped_cell(arch):
+    def run(budget):
+        import warnings
+        import z3
+        from vp import api
+        from vp.api import kf_state
+        from harness.c15_models import load
+        m = load(arch)
+        isa = m.get_ISA().lower()
+        table = []
+        with warnings.catch_warnings():
+            warnings.simplefilter("ignore")
+            for name, forms in m._data["instruction_forms_dict"].items():
+                for k in range(len(forms)):
+                    table.append((name, k, _entry_outcome(m, isa, forms, k)))
+        idx = z3.Int("entry")
+        facts = []
+        for i, (name, k, why) in enumerate(table):
+            if why is not None and kf_state({"arch": arch, "name": name, "why": why, "operands": " ".join(str(getattr(o, "name", None)) for o in m._data["instruction_forms_dict"][name][k].operands)}) == "full":
+                facts.append(idx == i)
+        s = z3.Solver()
+        s.add(idx >= 0, idx < len(table), z3.Or(*facts) if facts else z3.BoolVal(False))
+        r = str(s.check())
+        if r == "sat":
+            i = s.model()[idx].as_long()
+            return {"status": "counterexample", "args": [arch, table[i][0], table[i][1]], "kwargs": {}, "paths": len(table), "message": "%s %s #%d: %s" % (arch, table[i][0], table[i][1], table[i][2])}
+        if r != "unsat":
+            return {"status": "inconclusive", "message": "solver answered " + r, "paths": len(table)}
+        api.STATS["reached"] += len(table)
+        api.STATS["nontrivial"] += sum(1 for t in table if t[2] is None)
+        api.SAMPLES.append({"arch": arch, "forms": len(table), "found_through_own_pattern": sum(1 for t in table if t[2] is None)})
+        return {"status": "confirmed", "paths": len(table)}
+    return run
+
+
+def replay_shipped(arch, name, k):
+    import warnings
+    from harness.c15_models import load
+    m = load(arch)
+    with warnings.catch_warnings():
+        warnings.simplefilter("ignore")
+        return _entry_outcome(m, m.get_ISA().lower(), m._data["instruction_forms_dict"][name], k) is None
+
+
 CELLS = {
     "x86_kinds": {"fn": x86_kinds, "bound": "%d entry operand kinds x %d instruction operand instances (registers of every class/width, memory with every base/offset/index/scale combination, immediates, identifier, memory-substitution wildcard)" % (len(X86_ENTRY), len(X86_OPND)),
                   "budget": {"quick": 170, "thorough": 600}, "shards": 16},
@@ -435,11 +587,17 @@ CELLS = {
     "fallback": {"fn": fallback, "bound": "suffix fall-backs in assign_tp_lt: full-name entry {absent, matching, non-matching} x stripped-name entry {same} x 8 x86 suffix letters / 3 AArch64 mnemonics", "budget": {"quick": 120, "thorough": 300}},
 }
 
+from harness.c15_models import ARCHS as _ARCHS
+for _a in _ARCHS:
+    CELLS["shipped_" + _a] = {"kind": "smt", "fn": make_shipped_cell(_a), "replay": replay_shipped,
+                              "bound": "every instruction form of %s.yml: the instruction synthesised from the form's own operand pattern is found through get_instruction, by the form itself or one listed before it, with equal operand count and agreeing operand kinds" % _a,
+                              "budget": {"quick": 170, "thorough": 300}}
+
 META = {
     "functions": ["MachineModel.get_instruction", "_match_operands", "_check_operands", "_check_x86_operands", "_check_AArch64_operands", "_is_x86_reg_type", "_is_AArch64_reg_type",
                   "_is_x86_mem_type", "_is_AArch64_mem_type", "ArchSemantics.assign_tp_lt (suffix fall-backs)"],
     "bounds": "single operand pairs over the enumerated kind tables; searches over <=3 entries; values symbolic where the verdict must not depend on them",
-    "outside": "per-entry sweep over the ~18k shipped entries; masking/zeroing (consider_masking=False at the call site); specific-register entries (rax, ymm0-15) of the shipped DBs; AArch64 register pairs where exactly one side declares an element shape (not determined by the statement)",
+    "outside": "masking/zeroing (consider_masking=False at the call site); specific-register entries (rax, ymm0-15) of the shipped DBs; AArch64 register pairs where exactly one side declares an element shape (not determined by the statement)",
     "assumptions": ["declarative kind-agreement oracle written from the statement and README conventions (scale 's' = any scale > 1)",
                     "kind cells are a complete case split (each path one native run); value cells are traced with unbounded symbolic ints"],
 }
